@@ -23,13 +23,13 @@
 #define M_UNREACHED(tag) do { printf("VP-ASSERT-FAILED %s %s:%d\n", tag, __FILE__, __LINE__); fflush(stdout); _exit(99); } while (0)
 #endif
 
-const char _zvbi_intl_domainname[] = "zvbi";
 pthread_once_t vbi_init_once = PTHREAD_ONCE_INIT;
 void vbi_init(void) { }
 
 #ifndef C16_HAVE_GFX
-vbi_export_class vbi_export_class_ppm, vbi_export_class_xpm, vbi_export_class_png;
+vbi_export_class vbi_export_class_ppm, vbi_export_class_xpm;
 #endif
+vbi_export_class vbi_export_class_png;      /* the gfx harness compiles exp-gfx.c without HAVE_LIBPNG */
 #ifndef C16_HAVE_TEXT
 vbi_export_class vbi_export_class_text;
 #endif
@@ -59,4 +59,30 @@ int snprintf(char *s, size_t n, const char *fmt, ...) { (void) fmt; if (n > 0) s
 char *strerror(int e) { static char msg[2] = "E"; (void) e; return msg; }
 char *dgettext(const char *d, const char *m) { (void) d; return (char *) m; }
 int pthread_once(pthread_once_t *o, void (*f)(void)) { (void) o; f(); return 0; }
+
+#ifdef C16_REALLOC_MODEL
+/* realloc: CBMC's built-in model copies with ARRAY_COPY, which came back with unconstrained contents when the
+   pointer argument may denote one of several heap objects (measured: alloc_equals_reference failed although the
+   bytes are equal natively).  This model: fresh exact-size object (so the bounds checks stay exact), byte-wise
+   copy of min(old size, new size) bytes, old object freed (so use-after-free is still detected).  The write layer
+   owns at most ONE realloc'ed block at a time (e->buffer.data); the model keeps that block's size in a variable
+   (concrete on every path when the request sizes are) and asserts the single-block discipline.
+   Allocation never fails (--no-malloc-may-fail). */
+static void *c16_blk;
+static size_t c16_blk_size;
+void *realloc(void *p, size_t n)
+{
+  char *q = (char *) malloc(n);
+  size_t i;
+  __CPROVER_assert(n <= C16_REALLOC_MODEL, "VP:realloc_model_size_bound");
+  if (p != NULL) {
+    __CPROVER_assert(p == c16_blk, "VP:realloc_model_single_live_block");
+    for (i = 0; i < C16_REALLOC_MODEL; i++)
+      if (i < c16_blk_size && i < n) q[i] = ((const char *) p)[i];
+    free(p);
+  }
+  c16_blk = q; c16_blk_size = n;
+  return q;
+}
+#endif
 #endif
